@@ -660,6 +660,34 @@ def _gen_case(rng: Rng, max_routers: int = 3) -> dict:
             and not notes.get("gw_off_subnet") and not notes.get("recable_other")}
 
 
+def add_loopback_ops(case: dict, rng: Rng) -> dict:
+    """Loopback family (ICMP.ping's early case): appended to the ops of a generated case.  Up to two hosts and one router / firewall ping
+    127.0.0.1 in whatever state the run left them, then with every cabled interface enabled (another 127.x.y.z as well), then with EVERY
+    interface of the node disabled (the answer must be False: `any(nic.enabled …)`), and the interfaces come back up.  Nothing may be sent."""
+    nodes = case["nodes"]
+    hosts = [n for n, nd in enumerate(nodes) if nd["kind"] == "host"]
+    routers = [n for n, nd in enumerate(nodes) if nd["kind"] in ("router", "firewall")]
+    chosen = rng.shuffle(hosts)[:2] + rng.shuffle(routers)[:1]
+    ops = []
+    for n in chosen:
+        nd = nodes[n]
+        if nd["kind"] == "host":
+            ifcs = list(range(1 + len(nd.get("extra", []))))
+        else:
+            ifcs = [i for i, prt in enumerate(nd["ports"]) if prt]
+        other = f"127.{rng.below(256)}.{rng.below(256)}.{rng.range(1, 254)}"
+        ops.append({"op": "ping", "src": n, "dst": "127.0.0.1", "count": rng.choice([1, 4])})
+        ops += [{"op": "enable", "node": n, "ifc": i} for i in ifcs]
+        ops.append({"op": "ping", "src": n, "dst": "127.0.0.1", "count": rng.choice([1, 2])})
+        ops.append({"op": "ping", "src": n, "dst": other, "count": rng.choice([1, 4])})
+        ops += [{"op": "disable", "node": n, "ifc": i} for i in ifcs]
+        ops.append({"op": "ping", "src": n, "dst": "127.0.0.1", "count": rng.choice([1, 4])})
+        ops.append({"op": "ping", "src": n, "dst": other, "count": 1})
+        ops += [{"op": "enable", "node": n, "ifc": i} for i in ifcs]
+    notes = dict(case.get("notes", {}), loopback=len(chosen))
+    return dict(case, ops=list(case["ops"]) + ops, notes=notes)
+
+
 # ------------------------------------------------------------------------------------------ model side
 def mac_of(case: dict) -> Dict[Tuple[int, int], int]:
     """model MAC numbers: 1.. in (node, interface) order."""
@@ -1046,7 +1074,9 @@ def run_impl(case: dict) -> Tuple[List[str], List[dict]]:
                     res = "OOF"
                     dead = True
                 else:
-                    raise
+                    # any other exception out of the code under test is an ANSWER the model does not give (a violation with a replay),
+                    # not a crash of the check
+                    res = "EXC:" + type(e).__name__
             raw = rec.take()
             toks = []
             for e in raw:
@@ -1058,6 +1088,8 @@ def run_impl(case: dict) -> Tuple[List[str], List[dict]]:
                     toks.append(f"sw:{e[1]}:{id(e[2])}")
             if res == "OOF":
                 answers.append("OOF")
+            elif res.startswith("EXC:"):
+                answers.append(res)
             elif op["op"] in ("ping", "enable", "service", "recable", "inject") or (op["op"] == "power" and op["on"]):
                 answers.append(" ".join([res] + canon_events(toks)))
             else:
